@@ -148,6 +148,19 @@ def _resolve_log(L):
     L.set('nresolve', L.nresolve + 1)
 
 
+def _first_log(L):
+    L.set('gfirst', L._st.lst(L.result.v) if hasattr(L.result, 'v') else L.result)
+    L.set('g1refs', L._st.lst(L.callargs[0]))
+    L.set('g1qrys', L._st.lst(L.callargs[1]))
+
+
+def _second_call_log(L):
+    L.set('gsecond', L.result.v)
+    L.set('g2rows_arg', L._st.lst(L.callargs[0]))
+    L.set('g2qrys', L._st.lst(L.callargs[1]))
+    L.set('g2refs', L._st.lst(L.callargs[2]))
+
+
 def _ensures(C, res):
     """stated over the ghost log of the calls (what was de-duplicated, what was joined, what was written where), not over the
     function's final locals: a path that skips a step leaves its ghost unset and fails the clause"""
@@ -161,7 +174,10 @@ def _ensures(C, res):
     first, second = Fv.gf1, Fv.gf2
     joined, sep = Fv.gjoined, Fv.gsep
     needs_join = z3.Not(_mode(C, 'separate'))
-    cl = [('both_passes_are_de_duplicated_once', Fv.nfilter == 2),
+    cl = [('first_pass_runs_on_the_references_and_the_queries_given_in_that_order', z3.And(same_list(Fv.g1refs, C.referenceMaps), same_list(Fv.g1qrys, C.queryMaps))),
+          ('second_pass_gets_the_first_pass_rows_the_queries_and_the_references_in_that_order', z3.And(
+              same_list(Fv.g2rows_arg, Fv.gfirst), same_list(Fv.g2qrys, C.queryMaps), same_list(Fv.g2refs, C.referenceMaps))),
+          ('both_passes_are_de_duplicated_once', Fv.nfilter == 2),
           ('first_pass_file_is_filtered_from_first_pass_rows_only_unless_best', z3.Implies(z3.Not(_mode(C, 'best')), same_list(Fv.farg1, Fv.gfirst))),
           ('second_pass_file_is_filtered_from_second_pass_rows_only', same_list(Fv.farg2, Fv.gsecond)),
           ('separate_returns_filtered_first_pass_and_writes_filtered_second_pass_to_file_1',
@@ -179,6 +195,16 @@ def _ensures(C, res):
               z3.And(0 <= k, k <= k2, k2 < res.len), res[k].queryId <= res[k2].queryId), [MP(res.raw(k).t, res.raw(k2).t)]))),
           ('best_writes_no_additional_file', z3.Implies(_mode(C, 'best'), z3.And(Fv.writes1 == 0, Fv.writes2 == 0)))]
     so = C.note('last_sorted')
+    flog = C.note('filter_log', ())
+    if flog and Fv.has('bestRows') and Fv.has('joinedIds'):
+        # the first-pass rows that go into 'best' are exactly those whose QUERY id is not the query id of a joined row
+        flt = flog[-1]
+        j = z3.Int('bj')
+        JI = Fv.joinedIds
+        has_joined = lambda qid: z3.Exists([j], z3.And(rng(0, j, JI.len), JI[j] == qid))        # (JI[j] is joined[j].queryId by the clause's first half)
+        cl.append(('best_takes_a_first_pass_row_exactly_when_no_joined_row_has_its_query_id', z3.Implies(_mode(C, 'best'), z3.And(
+            Fv.joinedIds.len == joined.len, forall(k, z3.Implies(rng(0, k, joined.len), Fv.joinedIds[k] == joined[k].queryId), [Fv.joinedIds[k]]),
+            forall(k, z3.Implies(rng(0, k, first.len), flt['cond'](k) == z3.Not(has_joined(first[k].queryId))), [first.raw(k).t])))))
     if so is not None and Fv.has('bestRows'):
         best = Fv.bestRows
         # every joined row and every first-pass row of a query without a joined row is in the result
@@ -195,12 +221,12 @@ execute = FunctionSpec(
     file=F, qualname='_MultiPassWorkflowCoordinator.execute', params=dict(self=MP_, referenceMaps=LIST(OMAP), queryMaps=LIST(OMAP)), returns=LIST(ROW),
     requires=_requires, ensures=_ensures, may_raise={'IndexError'}, keep_own_safety=True,     # (the row-level join is under a partial-correctness contract)
     ghost={'file1': _el, 'file2': _el, 'writes1': lambda C: z3.IntVal(0), 'writes2': lambda C: z3.IntVal(0),
-           'gfirst': _el, 'gsecond': _el, 'farg1': _el, 'farg2': _el, 'gf1': _el, 'gf2': _el, 'gjoined': _el, 'gsep': _el, 'rarg': _el,
+           'gfirst': _el, 'gsecond': _el, 'g2rows_arg': _el, 'g1refs': _eo, 'g1qrys': _eo, 'g2qrys': _eo, 'g2refs': _eo, 'farg1': _el, 'farg2': _el, 'gf1': _el, 'gf2': _el, 'gjoined': _el, 'gsep': _el, 'rarg': _el,
            'rdiff': lambda C: z3.RealVal(-1), 'nfilter': lambda C: z3.IntVal(0), 'nresolve': lambda C: z3.IntVal(0)},
     ghost_at={'call:saveAdditionalOutput#0': _log, 'call:saveAdditionalOutput#1': _log, 'call:saveAdditionalOutput#2': _log,
               'call:saveAdditionalOutput#3': _log,
-              'call:execute#0': lambda L: L.set('gfirst', L._st.lst(L.result.v) if hasattr(L.result, 'v') else L.result),
-              'call:getSecondPassAlignmentRows#0': lambda L: L.set('gsecond', L.result.v),
+              'call:execute#0': _first_log,
+              'call:getSecondPassAlignmentRows#0': _second_call_log,
               'call:filterOutSubsequentAlignmentsForSingleQuery#0': _filter_log('1'),
               'call:filterOutSubsequentAlignmentsForSingleQuery#1': _filter_log('2'),
               'call:resolve#0': _resolve_log},
